@@ -654,6 +654,28 @@ def o_memory(w, tr):
             out.append(('C11:upload-buffers',
                         f'{mx} bytes read from user streams and not yet sent; limit '
                         f'({cfg.max_in_memory_upload_chunks}+{cfg.max_submission_concurrency})*{per}={limit}'))
+    # seekable streams: every part body is one read of the stream into its own buffer, so buffers
+    # can be counted exactly (manager-wide): non-empty reads minus finished part requests
+    ev = []
+    for info in stream_uploads:
+        if info['t'].get('src') != 'seekable':
+            continue
+        idx = info['idx']
+        parts = [c for c in tr.calls_of.get(idx, []) if c['op'] == 'UploadPart']
+        if not parts:
+            continue
+        in_call = [(c['begin'], c['end'] if c['end'] is not None else END) for c in tr.calls_of.get(idx, [])]
+        ev += [(e[0], 1) for e in tr.ev('src.read')
+               if e[3]['name'] == f'src{idx}' and e[3]['n'] and not any(b <= e[0] <= en for b, en in in_call)]
+        ev += [(c['end'], -1) for c in parts if c['end'] is not None]
+    if ev:
+        nb = _intervals_max(ev)
+        w.sched.user['max_upload_buffers'] = nb
+        lim = cfg.max_in_memory_upload_chunks + cfg.max_submission_concurrency
+        if nb > lim:
+            out.append(('C11:upload-buffer-count',
+                        f'{nb} part buffers read from seekable streams and not yet sent; limit '
+                        f'{cfg.max_in_memory_upload_chunks}+{cfg.max_submission_concurrency}={lim}'))
     # pending destination writes: IO-stage occupancy and chunk size
     END2 = 10 ** 9
     io_ev = []
@@ -744,10 +766,12 @@ def o_semaphores(w, tr):
 def o_barrier(w, tr):
     """C18: nothing happens after shutdown returned; isolation."""
     out = []
-    if w.sched.outcome != 'ok':
+    if w.sched.outcome not in ('ok', 'deadlock'):
         return out
     sh = tr.first_step('user.shutdown_returned')
     if sh is None:
+        if w.sched.outcome == 'deadlock' and tr.first_step('user.shutdown_called') is not None:
+            out.append(('C18:shutdown-never-returns', f'shutdown()/with-exit blocked forever: {w.sched.outcome_detail}'))
         return out
     inj_threads = {t.id for t in w.sched.threads if t.role == 'inject'}
     for kind in ('s3.begin', 'fs.write', 'sink.write', 'cb.queued', 'cb.progress', 'cb.done', 'fs.rename', 'fs.remove'):
@@ -786,6 +810,17 @@ def o_isolation(w, tr):
 def o_cancel(w, tr):
     """C07."""
     out = []
+    if w.sched.outcome == 'deadlock':
+        # "makes every not-yet-finished transfer finish with the cancellation error": a transfer
+        # that was cancelled and never becomes done (the user blocks on it forever) breaks C07 too
+        cancels = tr.ev('inject')
+        scr = w.scn.get('script', 'wait')
+        if cancels or scr.startswith('with_raise'):
+            missing = [i for i in range(len(w.futures)) if i not in w.outcomes]
+            how = cancels[0][3]['kind'] if cancels else scr
+            out.append((f'C07:cancelled-transfer-never-finishes:{how}',
+                        f'after {how} transfer(s) {missing} never became done; blocked: {w.sched.outcome_detail}'))
+        return out
     if w.sched.outcome != 'ok':
         return out
     scn = w.scn
